@@ -1829,7 +1829,13 @@ private:
             return;
         }
         int length = static_cast<int>(str.size());
-        if (length > 0)
+        if (length == 1 && str[0] == '0')
+        {
+            // a zero mantissa is zero whatever the exponent (the digits "0" padded with the exponent's zeros, 
+            // e.g. 000.0, are not a number)
+            result.append("0.0");
+        }
+        else if (length > 0)
         {
             if (str[0] == '-')
             {
